@@ -49,10 +49,31 @@ type aMsg struct {
 	hold     bool // must never be forwarded (too recent on the wall clock)
 	attestOK bool
 	kind     string
+	pool     bool // attestation of one of the pool tokens, whose contracts change what they report over time
+	tokAddr  string
+	meta     tokenBehaviour // what the attestation claims
+}
+
+// one stretch of the request log during which a pool token's contract gives the same answers
+type tokEpoch struct {
+	from int // position in the request log
+	b    tokenBehaviour
+}
+
+func (b tokenBehaviour) confirms(m tokenBehaviour) bool {
+	return b.Mode == "ok" && b.Decimals == m.Decimals && b.Symbol == m.Symbol && b.Name == m.Name
+}
+
+var poolTokenVersions = []tokenBehaviour{
+	{Mode: "ok", Decimals: 8, Symbol: "SYM", Name: "Token Name"},
+	{Mode: "ok", Decimals: 9, Symbol: "SYM", Name: "Token Name"},
+	{Mode: "fail-all"}, // not deployed (yet), or its calls fail
+	{Mode: "ok", Decimals: 8, Symbol: "SYN", Name: "Token Name"},
 }
 
 type aTx struct {
 	id        string
+	emitPos   int // position in the request log when the transaction appeared
 	msgs      []*aMsg
 	block     *simBlock
 	orphaned  bool
@@ -252,6 +273,42 @@ func runAlph(c aCase, o aOracles) (*vh.Violation, vh.Outcome) {
 		return false
 	}
 
+	// The pool tokens: attestations (genuine and mismatching) name them again and again, and what their contracts
+	// report changes over time ("tokenchange"). An attestation may be forwarded only if the token confirmed its
+	// metadata at some moment between the transaction's appearance and the hand-off, and must be forwarded if the
+	// token confirmed it all the time since.
+	tokHist := map[string][]tokEpoch{}
+	poolAddr := func(i int) string {
+		id := Byte32{0xab, byte(i % 2), 31: 0}
+		a, _ := ToContractAddress(id.ToHex())
+		return *a
+	}
+	sim.mu.Lock()
+	for i := 0; i < 2; i++ {
+		sim.tokens[poolAddr(i)] = poolTokenVersions[0]
+		tokHist[poolAddr(i)] = []tokEpoch{{0, poolTokenVersions[0]}}
+	}
+	sim.mu.Unlock()
+	everConfirmed := func(addr string, meta tokenBehaviour, from, to int) bool {
+		h := tokHist[addr]
+		for i, e := range h {
+			if e.from <= to && (i == len(h)-1 || h[i+1].from >= from) && e.b.confirms(meta) {
+				return true
+			}
+		}
+		return false
+	}
+	alwaysConfirmed := func(addr string, meta tokenBehaviour, from int) bool {
+		h := tokHist[addr]
+		for i, e := range h {
+			if (i == len(h)-1 || h[i+1].from >= from) && !e.b.confirms(meta) {
+				return false
+			}
+		}
+		return true
+	}
+	tokenChanged := false
+
 	nowMs := time.Now().UnixMilli()
 	var txs []*aTx
 	nBlocks := 0
@@ -273,7 +330,7 @@ func runAlph(c aCase, o aOracles) (*vh.Violation, vh.Outcome) {
 	}
 	mkEmit := func(i int, x aOp) {
 		sim.aheadHold = false // the events the count was ahead by are (some of) the ones that appear now
-		tx := &aTx{id: simHash("tx", len(txs)+1)}
+		tx := &aTx{id: simHash("tx", len(txs)+1), emitPos: len(sim.reqs)}
 		n := 1 + x.D%3 // a transaction can make the governance contract publish several messages
 		if x.K == "burst" {
 			n = 1
@@ -298,23 +355,25 @@ func runAlph(c aCase, o aOracles) (*vh.Violation, vh.Outcome) {
 				// a correct attestation of a token can be followed by a wrong one of the same token (and vice versa)
 				tokenId = Byte32{0xab, byte((x.D + k) % 2), 31: 0}
 				tokenAddr, _ = ToContractAddress(tokenId.ToHex())
-				sim.tokens[*tokenAddr] = tokenBehaviour{Mode: "ok", Decimals: 8, Symbol: "SYM", Name: "Token Name"}
-				if (x.C+k*(1+x.D%4))%6 == 1 {
-					t.Payload = attestPayload(tokenId, 8, "SYM", "Token Name")
-					m.kind = "attest"
-					break
+				m.pool, m.tokAddr = true, *tokenAddr
+				m.meta = tokenBehaviour{Decimals: 8, Symbol: "SYM", Name: "Token Name"}
+				if (x.C+k*(1+x.D%4))%6 == 2 {
+					switch x.D % 3 { // what the token said at first is not what is attested
+					case 0:
+						m.meta.Decimals = 9
+					case 1:
+						m.meta.Symbol = "SYN"
+					default:
+						m.meta.Name = "Token Nam"
+					}
 				}
-				switch x.D % 3 { // the token says otherwise
-				case 0:
-					t.Payload = attestPayload(tokenId, 9, "SYM", "Token Name")
-				case 1:
-					t.Payload = attestPayload(tokenId, 8, "SYN", "Token Name")
-				default:
-					t.Payload = attestPayload(tokenId, 8, "SYM", "Token Nam")
+				t.Payload = attestPayload(tokenId, m.meta.Decimals, m.meta.Symbol, m.meta.Name)
+				m.kind = "attest"
+				if !sim.tokens[*tokenAddr].confirms(m.meta) {
+					m.attestOK = false
+					m.kind = "attest-mismatch"
+					hostile = true
 				}
-				m.attestOK = false
-				m.kind = "attest-mismatch"
-				hostile = true
 			case 3:
 				t.Payload = attestPayload(tokenId, 8, "SYM", "Token Name")
 				sim.tokens[*tokenAddr] = tokenBehaviour{Mode: []string{"fail-all", "fail-0", "fail-1", "fail-2", "two-results", "no-returns-1", "wrong-type"}[(x.D+k)%7]}
@@ -469,6 +528,14 @@ func runAlph(c aCase, o aOracles) (*vh.Violation, vh.Outcome) {
 		case "fault":
 			faulty = true
 			sim.faults[[]string{"count", "page", "chaininfo", "header", "mainchain", "txstatus", "txid"}[x.A%7]] = 1 + x.B%2
+		case "tokenchange":
+			addr := poolAddr(x.D)
+			nb := poolTokenVersions[x.A%len(poolTokenVersions)]
+			if sim.tokens[addr] != nb {
+				sim.tokens[addr] = nb
+				tokHist[addr] = append(tokHist[addr], tokEpoch{len(sim.reqs), nb})
+				tokenChanged = true
+			}
 		case "pagesize":
 			sim.pageSize = 1 + x.A%5
 		case "countahead":
@@ -600,7 +667,12 @@ func runAlph(c aCase, o aOracles) (*vh.Violation, vh.Outcome) {
 		if am.truth.Sender != aBridgeId {
 			return vh.V("C08/foreign-caller-forwarded", "op %d (%s path): a message published by a contract other than the token bridge was forwarded", a.op, path), out
 		}
-		if !am.attestOK {
+		if am.pool {
+			if !everConfirmed(am.tokAddr, am.meta, t.emitPos, a.reqAt) {
+				return vh.V("C08/unverified-attestation-forwarded", "op %d (%s path): an attestation (decimals %d, symbol %q, name %q) was forwarded although the token contract reported something else (or failed) at every moment between the transaction's appearance (request %d) and the hand-off (request %d); what the token reported, by request position: %+v",
+					a.op, path, am.meta.Decimals, am.meta.Symbol, am.meta.Name, t.emitPos, a.reqAt, tokHist[am.tokAddr]), out
+			}
+		} else if !am.attestOK {
 			return vh.V("C08/unverified-attestation-forwarded", "op %d (%s path): an attestation (%s) whose metadata the token contract does not confirm was forwarded", a.op, path, am.kind), out
 		}
 		// which block? the one whose timestamp the message carries
@@ -682,6 +754,9 @@ func runAlph(c aCase, o aOracles) (*vh.Violation, vh.Outcome) {
 				if !m.expect {
 					continue
 				}
+				if m.pool && !alwaysConfirmed(m.tokAddr, m.meta, t.emitPos) {
+					continue // the token said otherwise at some point: the watcher may have asked just then
+				}
 				if forwarded[fmt.Sprintf("%s/%s/%d", t.id, blk.Hash, m.truth.Seq)] != 1 {
 					return vh.V("C09/message-never-observed", "the %s message (sequence %d, one of %d messages) of tx %s (token bridge caller, block %s on the main chain at height %d, consistency level %d, chain height now %d, old enough) was never handed to the signing pipeline", m.kind, m.truth.Seq, len(t.msgs), t.id[:12], blk.Hash[:10], blk.Height, m.truth.CL, sim.height), out
 				}
@@ -702,6 +777,9 @@ func runAlph(c aCase, o aOracles) (*vh.Violation, vh.Outcome) {
 	if hostile {
 		out.Labels = append(out.Labels, "hostile-events")
 	}
+	if tokenChanged {
+		out.Labels = append(out.Labels, "token-metadata-changed")
+	}
 	return nil, out
 }
 
@@ -714,11 +792,27 @@ func genAlph(t *rapid.T, liveness bool) aCase {
 	if !liveness {
 		kinds = append(kinds, "emit+reobserve", "emit+reobserve")
 	}
-	kinds = append(kinds, "countahead+emit")
+	kinds = append(kinds, "countahead+emit", "tokenchange", "attest+change+attest")
 	op := rapid.Custom(func(t *rapid.T) []aOp {
 		k := rapid.SampledFrom(kinds).Draw(t, "k")
 		one := func(o aOp) []aOp { return []aOp{o} }
 		switch k {
+		case "tokenchange":
+			return one(aOp{K: k, A: rapid.IntRange(0, 3).Draw(t, "version"), D: rapid.IntRange(0, 1).Draw(t, "token")})
+		case "attest+change+attest":
+			// a token is attested (rightly or wrongly, or while its contract does not answer), its contract then reports
+			// something else, and the token is attested again: the second answer has to come from the contract as it is now
+			d1 := rapid.IntRange(0, 100).Draw(t, "d1")
+			d2 := d1 + 2*rapid.IntRange(-3, 3).Draw(t, "d2")
+			if d2 < 0 {
+				d2 = d1
+			}
+			return []aOp{{K: "tokenchange", A: rapid.IntRange(0, 3).Draw(t, "v1"), D: d1 % 2},
+				{K: "emit", A: 0, B: rapid.IntRange(0, 2).Draw(t, "cl1"), C: rapid.IntRange(1, 2).Draw(t, "c1"), D: d1},
+				{K: "advance", A: rapid.IntRange(0, 4).Draw(t, "n")},
+				{K: "tokenchange", A: rapid.IntRange(0, 3).Draw(t, "v2"), D: d1 % 2},
+				{K: "emit", A: 0, B: rapid.IntRange(0, 2).Draw(t, "cl2"), C: rapid.IntRange(1, 2).Draw(t, "c2"), D: d2},
+				{K: "advance", A: 3}}
 		case "countahead+emit":
 			// the count runs two events ahead of what can be paged out; then exactly two events do appear, so that the count
 			// the node reports does not move although the cursor is still behind it
